@@ -430,6 +430,151 @@ func vrTreeDiff(a, b map[string]string) string {
 	return strings.Join(d, ", ")
 }
 
+
+// reserved path components (C16): a repository name containing index.json, oci-layout or blobs is refused every time it
+// is asked for, and asking for it creates nothing
+func vrReservedNames(t *testing.T) string {
+	root := t.TempDir()
+	s := NewDir(vrConf(config.StoreDir, root, false, nil))
+	defer s.Close()
+	if repo, err := s.RepoGet(context.Background(), "victim"); err == nil {
+		if bc, _, err := repo.BlobCreate(); err == nil {
+			_, _ = bc.Write([]byte("content"))
+			_ = bc.Close()
+		}
+		repo.Done()
+	}
+	before := vrTree(root)
+	for _, name := range []string{"victim/blobs", "victim/blobs/sha256", "blobs", "a/index.json", "oci-layout/x", "victim/blobs/sha256/" + strings.Repeat("0", 64)} {
+		for attempt := 1; attempt <= 3; attempt++ {
+			repo, err := s.RepoGet(context.Background(), name)
+			if err == nil {
+				_, _, _ = repo.BlobCreate()
+				repo.Done()
+				return fmt.Sprintf("dir store: RepoGet(%q), attempt %d, hands out a repository although the name has a reserved path component", name, attempt)
+			}
+		}
+	}
+	if d := vrTreeDiff(before, vrTree(root)); d != "" {
+		return "dir store: asking for reserved repository names changed the directory: " + d
+	}
+	return ""
+}
+
+// a deleted blob is gone (C06, C10): in a memory store over a directory too, where the copy in the directory must stay hidden
+func vrDeletedBlobHidden(t *testing.T) string {
+	root := t.TempDir()
+	content := []byte("shared content")
+	d := digest.Canonical.FromBytes(content)
+	ds := NewDir(vrConf(config.StoreDir, root, false, nil))
+	if repo, err := ds.RepoGet(context.Background(), "repo"); err == nil {
+		if bc, _, err := repo.BlobCreate(BlobWithDigest(d)); err == nil {
+			_, _ = bc.Write(content)
+			_ = bc.Close()
+		}
+		_ = repo.IndexInsert(types.Descriptor{MediaType: "application/octet-stream", Digest: d, Size: int64(len(content)), Annotations: map[string]string{types.AnnotRefName: "keep-layout"}})
+		repo.Done()
+	}
+	_ = ds.Close()
+	for _, pushAgain := range []bool{false, true} {
+		ms := NewMem(vrConf(config.StoreMem, root, false, nil))
+		repo, err := ms.RepoGet(context.Background(), "repo")
+		if err != nil {
+			_ = ms.Close()
+			continue
+		}
+		if pushAgain {
+			if bc, _, err := repo.BlobCreate(BlobWithDigest(d)); err == nil {
+				_, _ = bc.Write(content)
+				_ = bc.Close()
+			}
+		}
+		if err := repo.BlobDelete(d); err != nil {
+			repo.Done()
+			_ = ms.Close()
+			continue
+		}
+		_, errGet := repo.BlobGet(d)
+		repo.Done()
+		_ = ms.Close()
+		if errGet == nil {
+			return fmt.Sprintf("mem store over a directory: blob %s (also present in the directory, pushed again to memory: %v) is still served after BlobDelete returned nil", d, pushAgain)
+		}
+	}
+	return ""
+}
+
+// a cancelled session takes no more bytes and never becomes a blob (C08), whichever store
+func vrCancelledSessionIsDead(t *testing.T) string {
+	for name, s := range vrStores(t, nil) {
+		repo, err := s.RepoGet(context.Background(), "repo")
+		if err != nil {
+			continue
+		}
+		bc, _, err := repo.BlobCreate()
+		if err != nil {
+			repo.Done()
+			continue
+		}
+		part1, part2 := []byte("first chunk "), []byte("second chunk")
+		_, _ = bc.Write(part1)
+		_ = bc.Cancel()
+		n, werr := bc.Write(part2)
+		all := append(append([]byte{}, part1...), part2...)
+		_ = bc.Verify(digest.Canonical.FromBytes(all))
+		cerr := bc.Close()
+		_, g1 := repo.BlobGet(digest.Canonical.FromBytes(all))
+		_, g2 := repo.BlobGet(digest.Canonical.FromBytes(part1))
+		repo.Done()
+		_ = s.Close()
+		if werr == nil || n != 0 {
+			return fmt.Sprintf("%s store: Write on a cancelled upload session accepts %d bytes (err %v)", name, n, werr)
+		}
+		if cerr == nil || g1 == nil || g2 == nil {
+			return fmt.Sprintf("%s store: a cancelled upload session was closed into a blob (Close err %v)", name, cerr)
+		}
+	}
+	return ""
+}
+
+// what the API stored the collector sees (C10, C06): a blob under any algorithm the API accepts is listed
+func vrEveryAlgorithmListed(t *testing.T) string {
+	root := t.TempDir()
+	s := NewDir(vrConf(config.StoreDir, root, false, nil))
+	defer s.Close()
+	repo, err := s.RepoGet(context.Background(), "repo")
+	if err != nil {
+		return ""
+	}
+	defer repo.Done()
+	content := []byte("content")
+	for _, alg := range []digest.Algorithm{digest.SHA256, digest.SHA384, digest.SHA512} {
+		if !alg.Available() {
+			continue
+		}
+		d := alg.FromBytes(content)
+		bc, _, err := repo.BlobCreate(BlobWithDigest(d), BlobWithAlgorithm(alg))
+		if err != nil {
+			continue
+		}
+		_, _ = bc.Write(content)
+		if bc.Close() != nil {
+			continue
+		}
+		dl, err := repo.(*dirRepo).blobList(false)
+		found := false
+		for _, x := range dl {
+			if x == d {
+				found = true
+			}
+		}
+		if err == nil && !found {
+			return fmt.Sprintf("dir store: blob %s was stored (Close returned nil) but is not in the blob list the collector works from", d)
+		}
+	}
+	return ""
+}
+
 func TestVerifReplay(t *testing.T) {
 	ob := os.Getenv("VERIF_OBLIGATION")
 	type probe struct {
@@ -446,6 +591,10 @@ func TestVerifReplay(t *testing.T) {
 		{"indexIngest#post:already-stored", vrConversionRepeatable},
 		{".gc#loop", vrGCStarvation},
 		{"Repo.BlobCreate#post:exists-refreshes-age", vrExistsRefreshesAge},
+		{"RepoGet#", vrReservedNames},
+		{"memRepo.blob", vrDeletedBlobHidden},
+		{"Upload.Write", vrCancelledSessionIsDead},
+		{"blobList", vrEveryAlgorithmListed},
 	}
 	ran := 0
 	for _, p := range probes {
